@@ -24,54 +24,20 @@ theorem roundtrip_all_ranks (c : Cfg) (s : St) (ci : Bool)
     ((getL s' r l).aFactor.map (·.val)) = ((getL s r l).aFactor.map (·.val)) ∧
     ((getL s' r l).gFactor.map (·.val)) = ((getL s r l).gFactor.map (·.val)) ∧
     (getL s' r l).aBatch = none ∧ (getL s' r l).gBatch = none := by
-  sorry
-
-/-- a state at a step boundary of a run of whole iterations: nothing accumulated, counters zero -/
-def Boundary (c : SCfg) (s : SSt) : Prop :=
-  s.mini = List.replicate c.nLayers 0 ∧ s.layers.length = c.nLayers ∧
-  ∀ x ∈ s.layers, x.aBatch = none ∧ x.gBatch = none ∧ x.aCount = 0 ∧ x.gCount = 0
-
-/-- second-order data recomputed from the current factors with the damping read now -/
-def refreshAll (c : SCfg) (s : SSt) : SSt :=
-  (idxs c).foldl (fun t l => Spec.refresh c t l (s.hyper.damping.val s.steps)) s
-
-/-- everything that can influence the future (the gradients of the last step are not part of it) -/
-def SameFuture (s s' : SSt) : Prop :=
-  s.steps = s'.steps ∧ s.mini = s'.mini ∧ s.pass = s'.pass ∧ s.layers = s'.layers ∧
-  s.hyper = s'.hyper ∧ s.defs = s'.defs
-
-/-- the gradients produced by each step of a continuation -/
-def outsOf (c : SCfg) : SSt → List Op → List (List V)
-  | _, [] => []
-  | s, op :: t =>
-    let s' := Spec.exec c s op
-    match op with
-    | .step => s'.out :: outsOf c s' t
-    | _ => outsOf c s' t
-
-/-- stale second-order fields that `precond` never reads in the configured mode are ignored -/
-def SameFutureUpTo (c : SCfg) (s s' : SSt) : Prop :=
-  s.steps = s'.steps ∧ s.mini = s'.mini ∧ s.pass = s'.pass ∧ s.hyper = s'.hyper ∧ s.defs = s'.defs ∧
-  s.layers.length = s'.layers.length ∧
-  ∀ l, let x := getS s l; let y := getS s' l
-    x.aBatch = y.aBatch ∧ x.aCount = y.aCount ∧ x.gBatch = y.gBatch ∧ x.gCount = y.gCount ∧
-    x.aFactor = y.aFactor ∧ x.gFactor = y.gFactor ∧
-    (match c.method with
-     | .inverse => x.aInv = y.aInv ∧ x.gInv = y.gInv
-     | .eigen => x.qa = y.qa ∧ x.qg = y.qg ∧
-        (if c.prediv then x.dgda = y.dgda else x.da = y.da ∧ x.dg = y.dg))
+  obtain ⟨h1, h2, h3, h4, h5, h6⟩ := PF.roundtrip c s ci r l hr hl
+  exact ⟨h1, by rw [h2], by rw [h2], by rw [h2], by rw [h2], by rw [h2], by rw [h2], h3, h4, h5, h6⟩
 
 /-- **loading = recomputing the second-order data from the restored factors** (the statement's
     "otherwise" case, which is what a load with `compute_inverses=True` always does) -/
 theorem load_is_refresh (c : SCfg) (s : SSt) (hb : Boundary c s)
     (hf : ∀ x ∈ s.layers, x.aFactor.isSome ∧ x.gFactor.isSome) :
-    SameFutureUpTo c (Spec.saveLoad c s true true) (refreshAll c s) := by
-  sorry
+    SameFutureUpTo c (Spec.saveLoad c s true true) (refreshAll c s) :=
+  (SFU_iff _ _ _).mpr (load_refresh hb)
 
 /-- states that agree on everything `precond`/`refresh`/`updateReduce` read have the same future -/
 theorem same_future_same_outs (c : SCfg) (s s' : SSt) (h : SameFutureUpTo c s s') (ops : List Op) :
-    outsOf c s ops = outsOf c s' ops := by
-  sorry
+    outsOf c s ops = outsOf c s' ops :=
+  ((SFU_iff _ _ _).mp h).outs ops
 
 /-- **resume ≡ never stopping, case 1**: if the live second-order data had been computed from the
     saved factors with the damping the load reads (recomputing changes nothing), every continuation
@@ -79,8 +45,8 @@ theorem same_future_same_outs (c : SCfg) (s s' : SSt) (h : SameFutureUpTo c s s'
 theorem resume_equiv_fresh (c : SCfg) (s : SSt) (hb : Boundary c s)
     (hf : ∀ x ∈ s.layers, x.aFactor.isSome ∧ x.gFactor.isSome)
     (hfresh : SameFutureUpTo c (refreshAll c s) s) (ops : List Op) :
-    outsOf c (Spec.saveLoad c s true true) ops = outsOf c s ops := by
-  sorry
+    outsOf c (Spec.saveLoad c s true true) ops = outsOf c s ops :=
+  ((load_refresh hb).trans ((SFU_iff _ _ _).mp hfresh)).outs ops
 
 /-- **resume ≡ never stopping, case 2**: if the next step is an inverse-update step the data is
     recomputed anyway — with or without `compute_inverses` — and again every continuation agrees -/
@@ -89,14 +55,15 @@ theorem resume_equiv_next_refresh (c : SCfg) (s : SSt) (hb : Boundary c s)
     (hnext : s.steps % s.hyper.ius.val s.steps = 0) (ops : List Op) :
     outsOf c (Spec.saveLoad c s true ci) (List.replicate c.accum (.fwdBwd true) ++ .step :: ops)
       = outsOf c s (List.replicate c.accum (.fwdBwd true) ++ .step :: ops) := by
-  sorry
+  obtain ⟨h1, h2, _, _, _, h6⟩ := Spec.saveLoad_scalars c s true ci
+  exact passes_then_step c ops c.accum _ _ (saveLoad_rel hb ci) h6 (by rw [h1, h2]; exact hnext)
 
 /-- **otherwise**: exactly the gradients obtained with second-order data recomputed from the
     restored factors -/
 theorem resume_otherwise (c : SCfg) (s : SSt) (hb : Boundary c s)
     (hf : ∀ x ∈ s.layers, x.aFactor.isSome ∧ x.gFactor.isSome) (ops : List Op) :
-    outsOf c (Spec.saveLoad c s true true) ops = outsOf c (refreshAll c s) ops := by
-  sorry
+    outsOf c (Spec.saveLoad c s true true) ops = outsOf c (refreshAll c s) ops :=
+  (load_refresh hb).outs ops
 
 /-- the round trip on the reference machine: step count, hyper-parameters, factors and registered
     values survive; with the factors left out only those are lost -/
@@ -106,12 +73,19 @@ theorem roundtrip_spec (c : SCfg) (s : SSt) (inclF ci : Bool) (l : Nat) (hl : l 
     s'.steps = s.steps ∧ s'.hyper = s.hyper ∧ s'.defs = s.defs ∧ s'.pass = s.pass ∧
     (inclF = true → (getS s' l).aFactor = (getS s l).aFactor ∧ (getS s' l).gFactor = (getS s l).gFactor) ∧
     (inclF = false → (getS s' l).aFactor = none ∧ (getS s' l).gFactor = none) := by
-  sorry
+  obtain ⟨h1, h2, h3, h4, _, _⟩ := Spec.saveLoad_scalars c s inclF ci
+  refine ⟨h1, h2, h3, h4, ?_, ?_⟩
+  · rintro rfl
+    have h := roundtrip_fac c s ci l hl
+    exact ⟨congrArg Prod.fst h, congrArg Prod.snd h⟩
+  · rintro rfl
+    rw [roundtrip_nofac]
+    exact ⟨rfl, rfl⟩
 
 /-- loading a state that was kept in memory while training went on (roll-back) is the same
     operation as save-then-load at the moment the state was taken (M-Precond) -/
 theorem saveLoad_is_loadInto (c : Cfg) (s : St) (f ci : Bool) :
-    Precond.saveLoad c s f ci = Precond.loadInto c (Precond.saveState c s f) (Precond.saveState c s f) f ci := by
-  sorry
+    Precond.saveLoad c s f ci = Precond.loadInto c (Precond.saveState c s f) (Precond.saveState c s f) f ci :=
+  rfl
 
 end KV.C09
